@@ -52,13 +52,13 @@ def put(cfg, pos, val):
 
 def families(tier, seed):
     out = []
-    names = ["p_ok", "p_todo", "missing1", "host_svc", "dep", "p.ok", "p_ok2", "P_OK", "p_o", "p_ok_", "p_empty", "p_null", "p_zero", "p_false", "Host"]
+    names = ["p_ok", "p_todo", "missing1", "host_svc", "dep", "p.ok", "p_ok2", "P_OK", "p_o", "p_ok_z", "p_empty", "p_null", "p_zero", "p_false", "Host"]
     for pos, shape, n in itertools.product(POSITIONS, PARAM_SHAPES, names):
         cfg = base_cfg()
         put(cfg, pos, shape.replace("{n}", n))
         out.append(("param-ref:%s" % pos, cfg))
     for pos in POSITIONS[1:]:
-        for n in ["dep", "dep_todo", "ghost", "host", "p_ok", "tgt2", "de-p", "Dep", "DEP", "de", "dep_", "dep_tod", "tgt"]:
+        for n in ["dep", "dep_todo", "ghost", "host", "p_ok", "tgt2", "de-p", "Dep", "DEP", "de", "dep_z", "dep_tod", "tgt"]:
             cfg = base_cfg()
             put(cfg, pos, "@" + n)
             out.append(("service-ref:%s" % pos, cfg))
@@ -153,7 +153,7 @@ def run(tier, seed, replay):
                 samples.append({"family": fam, "config": cfggen.to_yaml(cfg), "dangling": want})
     # ---- run-time corollary: an accepted container never fails with 'does not exist' for a reference written in the configuration
     from . import rtcommon
-    rs, hs, gs = rtcommon.gen_cases(seed, "c06rt", 20 if tier == "quick" else 300, weights={"todo": 0.15}, hist_len=0)
+    rs, hs, gs = rtcommon.gen_cases(seed, "c06rt", 20 if tier == "quick" else 300, weights={"todo": 0.15, "decorators": 0.9, "tags": 0.9, "min_tags": 1}, hist_len=0)
     for k, sp in enumerate(rs):
         hs[k] = [{"op": "get", "name": n} for n in sp["cfg"]["services"]] + [{"op": "param", "name": p} for p in sp["cfg"]["parameters"]] + [{"op": "circular", "name": ""}]
     robs, rl, ml, racc = rtcommon.run_histories(out, tooldir, env, rs, hs, "C06 run-time corollary", "C06")
@@ -161,7 +161,8 @@ def run(tier, seed, replay):
     for k in racc:
         for o, line in zip(hs[k], rl[k]):
             rstat["operations"] += 1
-            if "does not exist" in line:
+            # (the library's wording for an unknown service / parameter; an unset ENVIRONMENT VARIABLE "does not exist" too and is not a reference)
+            if re.search(r"(service|param(eter)?)( \\x22[^\\]*\\x22)? does not exist", line):
                 out.violation("runtime-does-not-exist", "an accepted container fails at run time with 'does not exist': %s %s -> %s" % (o["op"], o["name"], line[:200]), dict(common.slim(rs[k], robs[k]), history=hs[k], results=rl[k]))
             if o["op"] == "circular" and line != "N":
                 out.violation("runtime-circular", "an accepted container reports circular dependencies: %s" % line[:200], dict(common.slim(rs[k], robs[k]), history=hs[k]))
